@@ -3,4 +3,3 @@ package props
 import "verif/sim/kernel"
 
 func RunC18(t *kernel.Tape, o Opts) *Result { return &Result{Prop: "C18", Status: "ok"} }
-func RunC19(t *kernel.Tape, o Opts) *Result { return &Result{Prop: "C19", Status: "ok"} }
